@@ -85,6 +85,15 @@ Definition frame_exit (kind : str) (k : nat) (o : outc) : outc * list term :=
          [ev [lit "caught"; ks k; show_Z (rc_num c); v;
               show_Z (match c with RcReturn => rc_num next | _ => rc_num c end); show_Z l]])
     end
+  else if str_eqb kind (lit "expr") then
+    (* a command substitution inside an expression: every code passes through unchanged, except
+       that an escaping break / continue is an error of the expression *)
+    match o with
+    | ONormal _ => (ONormal (ks k), [ev [lit "after"; ks k]])
+    | OExc RcBreak _ _ _ => (OExc RcError 0 RcError (lit "invoked ""break"" outside of a loop"), [])
+    | OExc RcContinue _ _ _ => (OExc RcError 0 RcError (lit "invoked ""continue"" outside of a loop"), [])
+    | _ => (o, [])
+    end
   else if str_eqb kind (lit "proc") then
     match o with
     | ONormal _ => (ONormal (ks k), [ev [lit "after"; ks k]])
